@@ -29,7 +29,7 @@ RULE = (
 )
 ASSUMPTIONS = ["one tamper at a time (plus a drawn share of double tampers); chain file content edits are outside the statement"]
 BUDGET = {"quick": (100, 4), "thorough": (7200, 16)}
-REQUIRED = ["older_generation", "nested_victim", "bitflip", "removed", "chain_removed", "flatten", "info_sf_noroot"]
+REQUIRED = ["older_generation", "nested_victim", "bitflip", "removed", "swapped_generation", "chain_removed", "flatten", "info_sf_noroot"]
 
 P1 = {
     "kinds": ["create"] * 6 + ["create_sf"] * 2 + ["put_new"] * 2 + ["overwrite", "mkdir"],
@@ -39,7 +39,7 @@ P1 = {
     "min_top": 1,
     "flags": {"-n": 0.15},
 }
-EDITS = ["flip", "flip", "insert", "delete", "truncate", "append_nl", "replace", "remove"]
+EDITS = ["flip", "flip", "insert", "delete", "truncate", "append_nl", "replace", "remove", "swap", "swap"]
 COMMANDS = ["create", "create_sf", "verify", "verify_sf", "verify_dh", "diff", "info", "info_sf_root", "info_sf_noroot", "flatten"]
 
 
@@ -47,6 +47,10 @@ COMMANDS = ["create", "create_sf", "verify", "verify_sf", "verify_dh", "diff", "
 def _scn(draw):
     scn = draw(hist.scenarios_deep(P1))
     scn["steps"].append({"op": "create", "root": "", "formats": draw(gen.formats(2)), "flags": []})
+    if draw(st.integers(0, 3)) == 0:
+        scn["root"] = draw(st.sampled_from(["Reel[A001]", "card[2]", "x[!a]y", "{a,b}", "star*", "q?", "100%"]))  # names special to glob / format code
+    if draw(st.integers(0, 2)) == 0:
+        scn["steps"].append({"op": "create", "root": "", "formats": draw(gen.formats(2)), "flags": []})  # make sure there are >= 2 generations
     pos = st.one_of(st.sampled_from([0, 1000]), st.integers(0, 1000))
     scn["tampers"] = draw(
         st.lists(
@@ -225,6 +229,19 @@ def run_case(scn, ctx):
                     os.remove(w.abs(p))
                     expect = {33}
                     ctx.event("removed")
+                elif t["edit"] == "swap":
+                    # the bytes of another generation of the same history: a valid manifest, but not the one chained here
+                    others = [m[2] for m in manifests if m[0] == h and m[2] != p]
+                    if not others:
+                        continue
+                    new = open(w.abs(others[t["pos"] % len(others)]), "rb").read()
+                    if new == original:
+                        continue
+                    with open(w.abs(p), "wb") as fh:
+                        fh.write(new)
+                    os.utime(w.abs(p), ns=(st_.st_atime_ns, st_.st_mtime_ns))
+                    expect = {31}
+                    ctx.event("swapped_generation")
                 else:
                     new = tamper_bytes(original, t)
                     if new == original:
